@@ -1534,13 +1534,16 @@ class Qube(object):
         if deriv is self:
             deriv = deriv.clone(recursive=False)
 
-        # Match readonly of parent if necessary
+        # Broadcast to the shape of the parent
+        if deriv._shape_ != self._shape_:
+            deriv = deriv.broadcast_to(self._shape_)
+
+        # Match readonly of parent if necessary (after the broadcast, which can
+        # return a new, writable object)
         if self._readonly_ and not deriv._readonly_:
             deriv = deriv.clone(recursive=False).as_readonly()
 
         # Save in the derivative dictionary and as an attribute
-        if deriv._shape_ != self._shape_:
-            deriv = deriv.broadcast_to(self._shape_)
 
         self._derivs_[key] = deriv
         setattr(self, 'd_d' + key, deriv)
